@@ -3,10 +3,10 @@ SPEC = {
     "level": "proof",
     "lean_modules": ["PallasVerif.Props.C31"],
     "required_theorems": ["consumes_valid", "consumes_invalid", "consumes_nodup", "produces_valid", "produces_invalid",
-                          "produces_at_agrees", "sorted_set_spec", "sorted_set_unique"],
+                          "produces_at_agrees", "sorted_set_spec", "sorted_set_unique", "consumes_first_occurrence_order", "consumes_unique"],
     "streams": [{"name": "utxo", "quick": 600, "thorough": 30000}],
     "rule": "one case = one stand-alone transaction (`tx <era> <cbor>`), then consumes / produces / produces_at at 0, n-1, n, n+1 / sorted. "
-            "Corpus: every test_data/*.tx and the transactions of every test_data/*.block (quick: first 2 per block; thorough: all), each "
+            "Corpus: every test_data/*.tx and the transactions of every test_data/*.block and of every 500th (thorough: 10th) block of the immutable-db chunks (quick: first 2 per block; thorough: all), each "
             "post-Byron one under BOTH validity flags (flag byte flipped in the CBOR); generated: Alonzo/Babbage/Conway bodies with 0..8 inputs "
             "drawn from a 1..7-hash alphabet (shared prefixes, boundary indices) so duplicates are frequent, 0..4 collateral inputs with duplicates, "
             "with/without collateral return, definite/indefinite arrays, tag-258 sets. distinct = sha1 of op text; non-trivial = post-Byron tx "
